@@ -11,7 +11,8 @@
    classical reals:
      ClassicalDedekindReals.sig_not_dec, ClassicalDedekindReals.sig_forall_dec,
      FunctionalExtensionality.functional_extensionality_dep, Classical_Prop.classic.
-   Sections 1, 2a, 3a and 6a are proved without them (plain case analysis and integer arithmetic).
+   Sections 0, 1, 2a, 3a and the lemmas of 4, 5, 6 that do not mention real numbers (tables, signs) are
+   proved without them (plain case analysis and integer arithmetic).
    No axiom is declared here. *)
 From Coq Require Import ZArith Reals Lia Lra Bool Floats.SpecFloat.
 From Flocq Require Import Core.Core Calc.Round IEEE754.BinarySingleNaN Plus_error.
@@ -120,13 +121,11 @@ Qed.
 (** * 1. Special values: the IEEE-754 tables, by case analysis (no axioms)                       *)
 (* ------------------------------------------------------------------------------------------ *)
 
-Notation NaN := S754_nan (only parsing).
-Notation Inf := S754_infinity (only parsing).
-Notation Zero := S754_zero (only parsing).
-Notation Fin := S754_finite (only parsing).
-
-(* x is a zero or a finite non-zero number *)
-Notation is_fin := is_finite_SF (only parsing).
+(* s = true is the negative sign; Fin s m e is the non-zero number (-1)^s * m * 2^e *)
+Local Notation NaN := S754_nan (only parsing).
+Local Notation Inf := S754_infinity (only parsing).
+Local Notation Zero := S754_zero (only parsing).
+Local Notation Fin := S754_finite (only parsing).
 
 Lemma add_nan : forall x, f_add NaN x = NaN /\ f_add x NaN = NaN.
 Proof. intros [s|s| |s m e]; split; reflexivity. Qed.
@@ -850,7 +849,7 @@ Lemma round_int_special : forall (md : rmode) (s : bool),
   f_round_int md NaN = NaN /\ f_round_int md (Inf s) = Inf s /\ f_round_int md (Zero s) = Zero s.
 Proof. intros md s. repeat split. Qed.
 
-(* the result always has the class-independent sign of the argument: in particular a zero result
+(* the result always has the sign of the argument, whatever its class: in particular a zero result
    (floor 0.5, ceil (-0.5), round (-0.3) ...) carries the sign of x.  No axioms. *)
 Lemma round_int_sign : forall md x,
   sign_SF (f_round_int md x) = sign_SF x /\ is_nan_SF (f_round_int md x) = is_nan_SF x.
